@@ -316,6 +316,53 @@ CLAIMED['C16'] = dict(
         design_ref="DESIGN.md 5 C16",
     )
 
+CLAIMED['C06'] = dict(
+        technique="Coq proof over a hand-written executable model (coq/Model/Iter.v) of iterative evaluation on an "
+                  "arbitrary, possibly cyclic, finite workbook: tracker namespace, _CycleCell value setter / "
+                  "start_calcs / needs_calc, range nodes with the value-is-None cache, graph construction through "
+                  "the setter, set_value without reset, the outer pass loop; extracted-model/implementation "
+                  "differential run on whole evaluate/set_value histories; exact-fixed-point and non-iterative-"
+                  "compiler oracles on the implementation; AST fingerprint of the transcribed functions",
+        text="Machine-checked (Coq 8.16, 8 theorems in coq/Props/C06.v, all closed under the global context). "
+             "FULL, for every workbook (cyclic or not, with range nodes), every state and every (iterations, "
+             "tolerance): C06_bounded (a returning evaluate made between 1 and max(1, iterations) passes), "
+             "C06_loop_total (the pass loop never fails by itself), C06_tolerance (if it stops before "
+             "`iterations` passes the todo set is empty and every cell computed in the last pass has "
+             "|new - prev| < (1+1e-5)*tolerance - the code's constant, as a double - or is blank in both; proved "
+             "through a generic lemma: any predicate closed under the four primitive state changes is an "
+             "invariant of _evaluate/_evaluate_range/_gen_graph). FULL for linear systems x = Ax + b over Q: "
+             "C06_contraction_step (a value computed from readings within E of the fixed point, any mixture of "
+             "this-pass and previous-pass values, is within (sum_j|a_ij|)E), C06_contraction_pass (one pass of "
+             "the MODEL on a built workbook of linear cell formulas with ||A||inf <= q <= 1, any evaluation "
+             "order the wip/computed discipline produces: everything stays within E, every formula cell "
+             "computed in the pass ends within qE), C06_contraction_bound (such a pass with q < 1 that moved no "
+             "component by more than d leaves all within q/(1-q) d). Not proved as one statement: that the last "
+             "pass computes every cell of the target's cone (needed to instantiate C06_contraction_bound with "
+             "the computed set), and cycles through range references (excluded from C06_contraction_pass: the "
+             "model, like the code, never refreshes a range). PARTIAL: C06_acyclic_partial + C06_acyclic_write "
+             "(acyclic workbook of linear formulas WITHOUT range nodes whose target is already built and with "
+             "nothing on the stack: iterative evaluate returns the from-scratch value for every (iterations, "
+             "tolerance) and the state stays quiet, also after any constant write; conditional on the "
+             "evaluation returning Ok - sufficiency of the fuel #cells+1 is not proved, the differential run "
+             "never saw OutOfFuel). REFUTED in the faithful model (advisory, built as an extra target, "
+             "Refuted/C06_acyclic.v): C06_acyclic_first_use_refuted (a cell first built in this call answers "
+             "with the blank it was constructed with), C06_acyclic_range_refuted (SUM(A1:A3) stays 6 after "
+             "set_value(A1, 10)). CORRESPONDENCE-ONLY: the whole model is hand-written (closures, "
+             "threading.local, openpyxl are outside the translator's subset); every quick run replays ~9000 "
+             "generated histories (~31k evaluate/set_value operations: contracting circular systems of 1-6 "
+             "cells in 1-2 rings incl. self references and SUM(range) terms, acyclic workbooks with ranges, with "
+             "and without stored results, targets in random order so that cells enter the model in different "
+             "orders) and compares result, pass count, every cell's (_value, _prev_value, wip), every range's "
+             "cached value and the tracker's todo/computed sets after each operation, 0 divergences; an AST "
+             "digest of the transcribed functions flags any edit of them. The oracle judges the property's own "
+             "statement on the implementation (passes within [1, iterations]; early stop => every cell of the "
+             "cone moved by at most the tolerance and lies within q/(1-q)*tolerance of the exact fixed point "
+             "from rational Gaussian elimination; acyclic => equals a fresh non-iterative compiler). Implementation "
+             "findings it exhibits: first use / late-built cells answer with the constructed value, range nodes "
+             "are cached forever, the 1e-5 slack of close_enough.",
+        design_ref="DESIGN.md 5 C06",
+    )
+
 NOT_YET = "check not built yet in this round (planned: DESIGN.md section 7 lists the build order)"
 
 
